@@ -162,20 +162,24 @@ Print Assumptions regexp_reread.
 (* C06 token sequences, PARTIAL: proved for the classes punctuators / operators (all 57 spellings),
    numeric literals (all radixes, separators, BigInt suffix, exponents), string literals (escapes, line
    continuations), identifiers + keywords + private identifiers (ASCII, Unicode letters, \u escapes,
-   ZWNJ/ZWJ), template literals without substitution, multi-line comments, single-line "//" comments
-   (followed by LF or CR), whitespace (incl. non-ASCII spaces) and line terminators (LF, CR, CRLF,
-   U+2028, U+2029).
-   seq_ok false ts: every (type, text) of ts is a token of one of these classes (it lexes on its own to
-   exactly that token: relexes; a comment text starts with "/*" or "//"), contains no truncated multi-byte
-   sequence, is followed — by the next token's first byte, or by the end of input — by a byte that
-   cannot extend it (stop_for: "separated wherever two adjacent tokens would otherwise merge", in a
-   sufficient form; closed tokens accept any follower), and no identifier directly follows a numeric
-   literal.  Then Next returns exactly these types and texts, in order, and ends at the end of input.
-   MISSING (covered by correspondence and the Go oracle only): templates with substitutions
-   (nesting), HTML-like comments, "//" comments ended by U+2028/U+2029 or the end of input, regular
-   expressions; followers that are safe but not in stop_for (e.g. '+' directly followed by '!'). *)
+   ZWNJ/ZWJ), template literals with nested substitutions to any depth (heads, middles, tails, braces
+   and parentheses inside substitutions: step_state is the specification of the level bookkeeping),
+   multi-line comments, single-line "//" comments (followed by LF or CR), whitespace (incl. non-ASCII
+   spaces) and line terminators (LF, CR, CRLF, U+2028, U+2029).
+   seq_ok false 0 [] ts: every (type, text) of ts is a token of one of these classes (it lexes on its
+   own to exactly that token: relexes; a comment text starts with "/*" or "//"; a template
+   continuation "}body${" / "}body`" is one whose head "`body${" / "`body`" is a TemplateStart /
+   Template token and that arrives where a template is waiting at the current brace level), contains
+   no truncated multi-byte sequence, is followed — by the next token's first byte, or by the end of
+   input — by a byte that cannot extend it (stop_for: "separated wherever two adjacent tokens would
+   otherwise merge", in a sufficient form; closed tokens accept any follower), and no identifier
+   directly follows a numeric literal.  Then Next returns exactly these types and texts, in order,
+   and ends at the end of input.
+   MISSING (covered by correspondence and the Go oracle only): HTML-like comments, "//" comments
+   ended by U+2028/U+2029 or the end of input, regular expressions inside sequences (see
+   regexp_reread); followers that are safe but not in stop_for (e.g. '+' directly followed by '!'). *)
 Theorem jslex_token_sequences_partial :
-  forall (ids idc zs : Z -> bool) (ts : list tokspec), seq_ok ids idc zs false ts ->
+  forall (ids idc zs : Z -> bool) (ts : list tokspec), seq_ok ids idc zs false 0 [] ts ->
     exists s', next_n ids idc zs (length ts) (js_init (texts ts)) =
                  Ok (map (fun t => (fst t, Some (snd t))) ts, s') /\
       at_end (jcur s') = true /\ lstart (jcur s') = lpos (jcur s').
